@@ -5,7 +5,7 @@ use crate::engine::{catch, panic_signature, CaseResult, Failure};
 use crate::providers::*;
 use mls_rs::client_builder::{
     BaseConfig, PaddingMode, WithCryptoProvider, WithGroupStateStorage, WithIdentityProvider, WithKeyPackageRepo,
-    WithPskStore,
+    WithMlsRules, WithPskStore,
 };
 use mls_rs::crypto::{SignaturePublicKey, SignatureSecretKey};
 use mls_rs::error::MlsError;
@@ -19,11 +19,14 @@ use mls_rs::{CipherSuite, CipherSuiteProvider, Client, CryptoProvider, Extension
 use std::collections::BTreeMap;
 use std::sync::Arc;
 
-pub type VConfig = WithCryptoProvider<
-    VCrypto,
-    WithIdentityProvider<
-        VIdentity,
-        WithGroupStateStorage<VGroupStore, WithPskStore<VPskStore, WithKeyPackageRepo<VKeyPkgStore, BaseConfig>>>,
+pub type VConfig = WithMlsRules<
+    VRules,
+    WithCryptoProvider<
+        VCrypto,
+        WithIdentityProvider<
+            VIdentity,
+            WithGroupStateStorage<VGroupStore, WithPskStore<VPskStore, WithKeyPackageRepo<VKeyPkgStore, BaseConfig>>>,
+        >,
     >,
 >;
 pub type VClient = Client<VConfig>;
@@ -33,6 +36,56 @@ pub const T0: u64 = 1_750_000_000;
 pub const EXT_TYPE: u16 = 0xF0A0;
 pub const EXT_TYPE2: u16 = 0xF0A1;
 pub const CUSTOM_PROPOSAL: u16 = 0xF0B0;
+/// "kick": the application's rules expand it, on every member, into a local Remove of the leaf named in its data
+/// (4 bytes, big endian); the application declares that it needs no update path
+pub const KICK_PROPOSAL: u16 = 0xF0B2;
+/// the same, declared to need an update path
+pub const KICK_WITH_PATH_PROPOSAL: u16 = 0xF0B3;
+
+/// The application's rules: the library's default rules, plus the expansion of the two "kick" custom proposals into
+/// `ProposalSource::Local` Remove proposals (the documented way to give a custom proposal an effect on the tree).
+#[derive(Clone, Debug, Default)]
+pub struct VRules {
+    pub inner: DefaultMlsRules,
+}
+
+impl mls_rs::MlsRules for VRules {
+    type Error = <DefaultMlsRules as mls_rs::MlsRules>::Error;
+
+    fn filter_proposals(
+        &self,
+        direction: mls_rs::mls_rules::CommitDirection,
+        source: mls_rs::mls_rules::CommitSource,
+        roster: &mls_rs::group::Roster,
+        context: &mls_rs::group::GroupContext,
+        mut proposals: mls_rs::mls_rules::ProposalBundle,
+    ) -> Result<mls_rs::mls_rules::ProposalBundle, Self::Error> {
+        let kicks: Vec<(u32, mls_rs::group::Sender)> = proposals
+            .custom_proposals()
+            .iter()
+            .filter(|p| matches!(p.proposal.proposal_type().raw_value(), KICK_PROPOSAL | KICK_WITH_PATH_PROPOSAL))
+            .filter_map(|p| Some((u32::from_be_bytes(p.proposal.data().try_into().ok()?), p.sender)))
+            .collect();
+        for (leaf, sender) in kicks {
+            if let Ok(r) = mls_rs::group::proposal::RemoveProposal::removing(leaf) {
+                proposals.add(mls_rs::group::proposal::Proposal::Remove(r), sender, mls_rs::mls_rules::ProposalSource::Local);
+            }
+        }
+        self.inner.filter_proposals(direction, source, roster, context, proposals)
+    }
+
+    fn commit_options(&self, roster: &mls_rs::group::Roster, context: &mls_rs::group::GroupContext, proposals: &mls_rs::mls_rules::ProposalBundle) -> Result<CommitOptions, Self::Error> {
+        self.inner.commit_options(roster, context, proposals)
+    }
+
+    fn encryption_options(&self, roster: &mls_rs::group::Roster, context: &mls_rs::group::GroupContext) -> Result<EncryptionOptions, Self::Error> {
+        self.inner.encryption_options(roster, context)
+    }
+
+    fn custom_proposal_requires_update_path(&self, t: ProposalType) -> bool {
+        t.raw_value() == KICK_WITH_PATH_PROPOSAL || (t.raw_value() != KICK_PROPOSAL && self.inner.custom_proposal_requires_update_path(t))
+    }
+}
 
 // ---------------------------------------------------------------------------------------------
 // guarded library calls
@@ -96,6 +149,8 @@ pub struct WorldCfg {
     pub providers: Vec<ProviderKind>,
     pub store: StoreKind,
     pub sql_key_packages: bool,
+    /// lifetime of the key packages the parties publish (seconds from the fake clock's now)
+    pub kp_lifetime: u64,
     pub retention: usize,
     pub ratchet_tree_extension: bool,
     pub single_welcome: bool,
@@ -116,6 +171,7 @@ impl WorldCfg {
             providers: vec![ProviderKind::OpenSsl],
             store: StoreKind::Mem,
             sql_key_packages: false,
+            kp_lifetime: KEY_PACKAGE_LIFETIME,
             retention: 3,
             ratchet_tree_extension: true,
             single_welcome: true,
@@ -133,6 +189,7 @@ impl WorldCfg {
             "providers": self.providers.iter().map(|p| p.name()).collect::<Vec<_>>(),
             "store": format!("{:?}", self.store),
             "retention": self.retention,
+            "key_package_lifetime_s": self.kp_lifetime,
             "ratchet_tree_extension": self.ratchet_tree_extension,
             "single_welcome": self.single_welcome,
             "path_required": self.path_required,
@@ -199,7 +256,7 @@ pub fn build_client(
     gstore: VGroupStore,
     kstore: VKeyPkgStore,
     pstore: VPskStore,
-    rules: DefaultMlsRules,
+    rules: VRules,
     identity: SigningIdentity,
     signer: SignatureSecretKey,
     suite: u16,
@@ -214,7 +271,7 @@ pub fn build_client_with_lifetime(
     gstore: VGroupStore,
     kstore: VKeyPkgStore,
     pstore: VPskStore,
-    rules: DefaultMlsRules,
+    rules: VRules,
     identity: SigningIdentity,
     signer: SignatureSecretKey,
     suite: u16,
@@ -229,7 +286,7 @@ pub fn build_client_with_lifetime(
         .crypto_provider(crypto)
         .mls_rules(rules)
         .extension_types([EXT_TYPE.into(), EXT_TYPE2.into()])
-        .custom_proposal_type(ProposalType::new(CUSTOM_PROPOSAL))
+        .custom_proposal_types([ProposalType::new(CUSTOM_PROPOSAL), ProposalType::new(KICK_PROPOSAL), ProposalType::new(KICK_WITH_PATH_PROPOSAL)])
         .signing_identity(identity, signer, CipherSuite::from(suite))
         .build()
 }
@@ -315,6 +372,8 @@ pub struct CommitSpec {
     pub resumption_psk_epochs: Vec<u64>,
     pub gce: Option<Vec<u8>>,
     pub custom: Option<Vec<u8>>,
+    /// "kick" custom proposal by value: (leaf to remove, declared to need an update path)
+    pub kick: Option<(u32, bool)>,
     pub new_identity: bool,
     /// outside parties whose add was proposed by reference (they join iff the commit added them)
     pub by_ref_add_candidates: Vec<usize>,
@@ -342,6 +401,8 @@ pub struct CommitInfo {
     pub unused: usize,
     /// ratchet tree delivered out of band (None when it travels in the Welcome's GroupInfo extension)
     pub tree_oob: Option<Vec<u8>>,
+    /// the commit carried a "kick" custom proposal (leaf, declared to need a path)
+    pub kick: Option<(u32, bool)>,
 }
 
 impl World {
@@ -433,11 +494,10 @@ impl World {
             _ => PaddingMode::None,
         };
         let enc_opts = EncryptionOptions::new(self.cfg.encrypt_handshake ^ (flip && id % 4 == 3), padding);
-        let rules = DefaultMlsRules::new()
-            .with_commit_options(commit_opts)
-            .with_encryption_options(enc_opts)
-            .with_custom_proposals_that_require_update_path(vec![]);
-        let client = build_client(
+        let rules = VRules {
+            inner: DefaultMlsRules::new().with_commit_options(commit_opts).with_encryption_options(enc_opts).with_custom_proposals_that_require_update_path(vec![]),
+        };
+        let client = build_client_with_lifetime(
             crypto.clone(),
             idp.clone(),
             gstore.clone(),
@@ -447,6 +507,7 @@ impl World {
             identity.clone(),
             signer.clone(),
             self.cfg.suite,
+            self.cfg.kp_lifetime,
         );
         self.parties.push(Party {
             id,
@@ -474,12 +535,12 @@ impl World {
     /// Rebuild a party's client (after an identity change the client must carry the new signer).
     pub fn rebuild_client(&mut self, p: usize) {
         let suite = self.cfg.suite;
+        let lifetime = self.cfg.kp_lifetime;
         let party = &mut self.parties[p];
-        let rules = DefaultMlsRules::new()
-            .with_commit_options(party.commit_opts)
-            .with_encryption_options(party.enc_opts)
-            .with_custom_proposals_that_require_update_path(vec![]);
-        party.client = build_client(
+        let rules = VRules {
+            inner: DefaultMlsRules::new().with_commit_options(party.commit_opts).with_encryption_options(party.enc_opts).with_custom_proposals_that_require_update_path(vec![]),
+        };
+        party.client = build_client_with_lifetime(
             party.crypto.clone(),
             party.idp.clone(),
             party.gstore.clone(),
@@ -489,6 +550,7 @@ impl World {
             party.identity.clone(),
             party.signer.clone(),
             suite,
+            lifetime,
         );
     }
 
@@ -670,16 +732,16 @@ impl World {
     pub fn spawn_twin(&mut self, p: usize) -> Result<(), OpErr> {
         self.save(p)?;
         let suite = self.cfg.suite;
+        let lifetime = self.cfg.kp_lifetime;
         let gid = self.group_id.clone();
         let party = &self.parties[p];
         let ctl = Arc::new(FaultCtl::default());
         ctl.reset();
         let gstore = party.gstore.fork(ctl.clone());
-        let rules = DefaultMlsRules::new()
-            .with_commit_options(party.commit_opts)
-            .with_encryption_options(party.enc_opts)
-            .with_custom_proposals_that_require_update_path(vec![]);
-        let client = build_client(
+        let rules = VRules {
+            inner: DefaultMlsRules::new().with_commit_options(party.commit_opts).with_encryption_options(party.enc_opts).with_custom_proposals_that_require_update_path(vec![]),
+        };
+        let client = build_client_with_lifetime(
             party.crypto.clone(),
             party.idp.clone(),
             gstore,
@@ -689,6 +751,7 @@ impl World {
             party.identity.clone(),
             party.signer.clone(),
             suite,
+            lifetime,
         );
         let group = guard(|| client.load_group(&gid))?;
         self.twins.insert(p, Twin { group, client, ctl, deliveries: 0 });
@@ -834,6 +897,10 @@ impl World {
             if let Some(data) = &spec2.custom {
                 b = b.custom_proposal(CustomProposal::new(ProposalType::new(CUSTOM_PROPOSAL), data.clone()));
             }
+            if let Some((leaf, with_path)) = spec2.kick {
+                let ty = if with_path { KICK_WITH_PATH_PROPOSAL } else { KICK_PROPOSAL };
+                b = b.custom_proposal(CustomProposal::new(ProposalType::new(ty), leaf.to_be_bytes().to_vec()));
+            }
             if let Some((sk, id)) = new_id2 {
                 b = b.set_new_signing_identity(sk, id);
             }
@@ -898,10 +965,13 @@ impl World {
 
         // receivers
         let mut removed = vec![];
+        let mut leaves_removed_by_value: Vec<u32> = spec.remove.clone();
+        leaves_removed_by_value.extend(spec.kick.map(|k| k.0));
         for m in &members_before {
             if *m == committer {
                 continue;
             }
+            let must_be_told = leaves_removed_by_value.contains(&self.parties[*m].leaf());
             hook(self, Stage::BeforeReceive { receiver: *m, bytes: &commit_bytes })?;
             let r = self.process(*m, &commit_bytes);
             match r {
@@ -926,6 +996,12 @@ impl World {
                     }
                     match d.effect {
                         CommitEffect::Removed { .. } => removed.push(*m),
+                        _ if must_be_told => {
+                            return Err(Failure::new(
+                                format!("{prop}|removed_member_not_told"),
+                                format!("party {m}: the commit of party {committer} in epoch {epoch_before} removes its leaf (by value: {:?}, kick: {:?}) but it reports {:?}", spec.remove, spec.kick, &format!("{:?}", d.effect).chars().take(40).collect::<String>()),
+                            ))
+                        }
                         CommitEffect::NewEpoch(_) => {}
                         CommitEffect::ReInit(_) => {}
                     }
@@ -1063,6 +1139,7 @@ impl World {
             external: false,
             unused: out.unused_proposals.len(),
             tree_oob,
+            kick: spec.kick,
         }))
     }
 
@@ -1188,6 +1265,7 @@ impl World {
             external: true,
             unused: 0,
             tree_oob: None,
+            kick: None,
         }))
     }
 
